@@ -78,7 +78,7 @@ def run_scripted(scen: dict, sched: list[dict], storage, entry: str, fail: dict 
     recorded = [(e["e"], e["f"], json.dumps(dict(e["kwargs"]), sort_keys=True)) for e in evs
                 if e["e"] in ("call", "ret", "fail")]
     return {"desc": scen["desc"], "inputs": scen["inputs"], "ev": evs, "storage": storage, "entry": entry,
-            "followed": recorded == script.items and script.finished(), "stuck": script.stuck or "",
+            "followed": recorded[: len(script.items)] == script.items and script.finished(), "stuck": script.stuck or "",
             "script": sched}
 
 
